@@ -49,6 +49,9 @@ func runOtherWorld(t *testing.T, k *Kernel, p *Plan, rec *RunRecord, keepLog boo
 	case "frame":
 		runFrameWorld(t, k, p, rec)
 		return true
+	case "cli":
+		runCliWorld(t, k, p, rec)
+		return true
 	}
 	return false
 }
